@@ -126,8 +126,9 @@ class Tr:
         kw = {k.arg: k.value for k in e.keywords}
         if isinstance(f, ast.Attribute):
             b, recv = self.expr(f.value)
-            if f.attr == "split" and len(e.args) == 1 and isinstance(e.args[0], ast.Constant) and len(e.args[0].value) == 1 \
-                    and isinstance(kw.get("maxsplit"), ast.Constant) and kw["maxsplit"].value == 1:
+            one = (isinstance(kw.get("maxsplit"), ast.Constant) and kw["maxsplit"].value == 1 and len(e.args) == 1) or \
+                  (len(e.args) == 2 and isinstance(e.args[1], ast.Constant) and e.args[1].value == 1 and not kw)
+            if f.attr == "split" and one and isinstance(e.args[0], ast.Constant) and isinstance(e.args[0].value, str) and len(e.args[0].value) == 1:
                 return b, "(pySplit1 %s '%s')" % (recv, e.args[0].value)
             if f.attr == "lstrip" and not e.args:
                 return b, "(lstrip %s)" % recv
